@@ -2,6 +2,7 @@ use crate::runner::Property;
 
 pub mod c01;
 pub mod c04;
+pub mod c05;
 pub mod c06;
 pub mod c07;
 pub mod c08;
@@ -23,6 +24,7 @@ pub fn by_id(id: &str) -> Option<Box<dyn Property>> {
     Some(match id {
         "C01" => Box::new(c01::C01),
         "C04" => Box::new(c04::C04),
+        "C05" => Box::new(c05::C05),
         "C06" => Box::new(c06::C06),
         "C07" => Box::new(c07::C07),
         "C08" => Box::new(c08::C08),
